@@ -511,6 +511,7 @@ type linOp struct {
 	id       int // op id (sub: registration id; retire: registration id)
 	lo, hi   int // interval in log positions
 	want     int
+	cands    []int // retire: the Once registrations of the slot whose Subscribe had been called when the handler ran
 }
 
 type mreg struct{ id, ty, slot int }
@@ -545,10 +546,17 @@ func (in *Inst) linearize(evs []h.Ev, call, ret []int, quiesced int, regs []reg)
 		if pid >= len(in.ops) {
 			continue
 		}
+		// the registration that fired is one whose Subscribe had at least been called when
+		// the handler ran; retiring it must not remove a registration made later (one that
+		// took its place while the handler was still running, say)
 		var cands []reg
+		var early []int
 		for _, r := range regs {
 			if r.ty == ty && r.slot == slot && r.o.Once {
 				cands = append(cands, r)
+				if call[r.id] < i {
+					early = append(early, r.id)
+				}
 			}
 		}
 		if len(cands) == 0 {
@@ -560,7 +568,7 @@ func (in *Inst) linearize(evs []h.Ev, call, ret []int, quiesced int, regs []reg)
 		if idx >= len(cands) {
 			continue // fired more often than registered: reported by the once oracle
 		}
-		ops = append(ops, linOp{kind: 6, ty: ty, slot: slot, id: -1, lo: call[pid], hi: ret[pid]})
+		ops = append(ops, linOp{kind: 6, ty: ty, slot: slot, id: -1, lo: call[pid], hi: ret[pid], cands: early})
 	}
 	// expected final state observations
 	probe := map[int][]int{} // ty -> slots delivered in the probe, in order
@@ -646,7 +654,11 @@ func (in *Inst) linearize(evs []h.Ev, call, ret []int, quiesced int, regs []reg)
 				}
 			case 6:
 				for x, r := range state {
-					if r.ty == o.ty && r.slot == o.slot && regByID[r.id].o.Once {
+					isCand := false
+					for _, c := range o.cands {
+						isCand = isCand || c == r.id
+					}
+					if r.ty == o.ty && r.slot == o.slot && regByID[r.id].o.Once && isCand {
 						state = append(state[:x:x], state[x+1:]...)
 						break
 					}
